@@ -158,7 +158,7 @@ func (s *Server) handleAssociatePacketOverStream(ctx context.Context, _ *model.R
 		return fmt.Errorf("failed to send reply: %w", err)
 	}
 
-	return RunUDPAssociateLoop(udpConn, apicommon.NewPacketOverStreamTunnel(proxyConn), s.config.Resolver)
+	return runUDPAssociateLoop(udpConn, apicommon.NewPacketOverStreamTunnel(proxyConn), s.config.Resolver, s.udpDestinationFilter(proxyConn))
 }
 
 func (s *Server) handleAssociateDatagram(ctx context.Context, _ *model.Request, proxyConn net.Conn) error {
@@ -188,7 +188,19 @@ func (s *Server) handleAssociateDatagram(ctx context.Context, _ *model.Request, 
 		return fmt.Errorf("failed to send reply: %w", err)
 	}
 
-	return runUDPAssociateDatagramLoop(udpConn, proxyConn, s.config.Resolver)
+	return runUDPAssociateDatagramLoop(udpConn, proxyConn, s.config.Resolver, s.udpDestinationFilter(proxyConn))
+}
+
+// udpDestinationFilter applies the loopback and private destination check
+// to each packet relayed by a UDP association of the proxy connection.
+func (s *Server) udpDestinationFilter(proxyConn net.Conn) udpDestinationFilter {
+	var userName string
+	if userCtx, ok := proxyConn.(apicommon.UserContext); ok {
+		userName = userCtx.UserName()
+	}
+	return func(dst model.AddrSpec) bool {
+		return s.isDestinationAllowed(dst, userName)
+	}
 }
 
 // handleForwarding forward the request to the egress proxy.
